@@ -321,3 +321,11 @@ End Decode.
 (** valid input for the closed round trip: valid-UTF-8 strings, bytes < 256, no duplicate keys *)
 Definition envelope_ok (e : envelope) : Prop :=
   envelope_utf8 e = true /\ bytes_ok (pl_bytes (e_payload e)) /\ md_wf (md_entries (e_meta e)).
+
+(** the one assumption left about encoding/json for the envelope: its scanner splits the text of
+    the (at most two) objects the encoder wrote for [e] — the envelope and its metadata — back
+    into the member texts they were built from.  (Object framing: braces, commas, colons, no
+    whitespace; member order as written.) *)
+Definition framing_ok (unframe : list N -> option (list (list N * list N))) (e : envelope) : Prop :=
+  unframe (frame_obj (env_members e)) = Some (env_members e)
+  /\ forall l, e_meta e = Some l -> unframe (frame_obj (meta_members l)) = Some (meta_members l).
